@@ -953,8 +953,11 @@ func (m *c14M) liveClients() (confs []*c14ConfClient,
 func (m *c14M) actCancel() {
 	confs, spends := m.liveClients()
 	i := c14Uniform(m.t, "victim", len(confs)+len(spends))
+	open := len(confs) + len(spends)
+	var wasDone bool
 	if i < len(confs) {
 		c := confs[i]
+		wasDone = c.done
 		m.logf("cancel conf #%d", c.id)
 		c.ev.Cancel()
 		m.afterCall(c14Call{kind: c14CkCancel})
@@ -967,6 +970,7 @@ func (m *c14M) actCancel() {
 		c.closed = true
 	} else {
 		c := spends[i-len(confs)]
+		wasDone = c.done
 		m.logf("cancel spend #%d", c.id)
 		c.ev.Cancel()
 		m.afterCall(c14Call{kind: c14CkCancel})
@@ -975,6 +979,11 @@ func (m *c14M) actCancel() {
 				"channels", c.id)
 		}
 		c.closed = true
+	}
+	confs, spends = m.liveClients()
+	if len(confs)+len(spends) != open-1 {
+		m.failf("Cancel of one client (done=%v) closed %d clients",
+			wasDone, open-len(confs)-len(spends))
 	}
 	m.flags["cancel"] = true
 }
